@@ -36,6 +36,8 @@ pub mod verif_hooks {
         pub static POLLS: Cell<u64> = const { Cell::new(0) };
         /// C12 mode: after every ucinewgame the shared tables must be empty, whatever the schedule
         pub static CHECK_FRESH: Cell<bool> = const { Cell::new(false) };
+        /// C13 mode: a setoption Hash with a new value sent while no bestmove is outstanding must take effect
+        pub static CHECK_RESIZED: Cell<bool> = const { Cell::new(false) };
     }
 
     pub fn poll(flag: &crate::verif_shim::sync::Arc<crate::verif_shim::sync::atomic::AtomicBool>) -> Option<bool> {
@@ -282,6 +284,7 @@ fn run_script(script: &[u8], abstract_states: &Mutex<BTreeSet<String>>) {
     u.verif_run_line(POS).unwrap();
     let (mut gos, mut isr) = (0usize, 0usize);
     let (mut outstanding, mut can_arrive, mut quit) = (false, false, false);
+    let mut hash_now = 1usize;
     let mut full: Vec<u8> = script.to_vec();
     if !full.ends_with(b"Q") {
         full.push(b'E');
@@ -306,7 +309,14 @@ fn run_script(script: &[u8], abstract_states: &Mutex<BTreeSet<String>>) {
                 assert!(u.verif_run_line("position fen 8/8/8/8/8/8/4P3/K6k w - - 0 1 moves e2e4").unwrap());
             }
             b'H' => {
-                assert!(u.verif_run_line("setoption name Hash value 2").unwrap());
+                // always a value different from the one in force (2, 3, 2, ...)
+                hash_now = if hash_now == 2 { 3 } else { 2 };
+                assert!(u.verif_run_line(&format!("setoption name Hash value {hash_now}")).unwrap());
+                if verif_hooks::CHECK_RESIZED.with(|c| c.get()) {
+                    let ps = u.verif_persistent_state().clone();
+                    let g = ps.lock().unwrap();
+                    assert!(g.tt.occupied == 0, "setoption name Hash value {hash_now} was sent while no bestmove was outstanding, yet the table was not resized ({} entries of the old table left, option reads {})", g.tt.occupied, u.verif_options().hash_size);
+                }
             }
             b'F' | b'D' | b'G' => {
                 PARK.with(|p| p.set(c == b'G'));
@@ -463,14 +473,20 @@ fn case_json(script: &[u8], bound: usize, choices: &[usize]) -> J {
 }
 
 /// E7 for C05: one script on the optimised binary with real threads (one schedule, labelled so).
-fn blackbox_script(bin: &str, script: &[u8], tiny_tree: bool) -> Result<(), String> {
+fn blackbox_script(bin: &str, script: &[u8], tiny_tree: bool, mode: u8) -> Result<(), String> {
+    // mode 0: depth limits; 1: Move Overhead 1000 with movetime / clock limits; 2: odd but valid phrasings of go
+    let overhead_mode = mode == 1;
     use std::time::Duration;
-    let t = Duration::from_secs(10);
+    let t = Duration::from_secs(20);
     let mut e = blackbox::Engine::start(bin)?;
     e.send("setoption name Hash value 1")?;
     // tiny tree: bare kings — an unbounded search runs out of depth within milliseconds
     let base = if tiny_tree { "position fen 8/8/8/3k4/8/3K4/8/8 w - - 0 1" } else { "position startpos" };
     e.send(base)?;
+    // overhead mode: the largest advertised Move Overhead, and finite searches limited by a small movetime
+    if overhead_mode {
+        e.send("setoption name Move Overhead value 1000")?;
+    }
     let (mut gos, mut isr) = (0usize, 0usize);
     e.send("isready")?;
     isr += 1;
@@ -503,9 +519,13 @@ fn blackbox_script(bin: &str, script: &[u8], tiny_tree: bool) -> Result<(), Stri
                     can_arrive = false;
                     continue;
                 }
-                e.send(match c {
-                    b'F' => "go depth 1",
-                    b'D' => "go depth 3",
+                e.send(match (c, mode) {
+                    (b'F', 0) => "go depth 1",
+                    (b'F', 1) => "go movetime 30",
+                    (b'F', _) => "go btime 300 wtime -50 binc 0 winc 0 depth 1",
+                    (b'D', 0) => "go depth 3",
+                    (b'D', 1) => "go wtime 300 btime 300 movestogo 3",
+                    (b'D', _) => "go  depth 3   movetime 100000000",
                     _ => "go infinite",
                 })?;
                 gos += 1;
@@ -641,19 +661,20 @@ fn c05(run: &Run) -> i32 {
             let n = std::sync::atomic::AtomicU64::new(0);
             util::par_for(bb.len(), |i| {
                 n.fetch_add(1, std::sync::atomic::Ordering::Relaxed);
-                for tiny in [false, true] {
-                    // the bare-kings variant only differs for scripts with an unbounded search
-                    if tiny && !bb[i].contains(&b'G') {
+                for (tiny, overhead) in [(false, 0u8), (true, 0), (false, 1), (false, 2)] {
+                    // the bare-kings variant only differs for scripts with an unbounded search, the overhead variant for
+                    // scripts with a finite one
+                    if (tiny && !bb[i].contains(&b'G')) || (overhead > 0 && !(bb[i].contains(&b'F') || bb[i].contains(&b'D'))) {
                         continue;
                     }
-                    if let Err(m) = blackbox_script(&bin, bb[i], tiny) {
+                    if let Err(m) = blackbox_script(&bin, bb[i], tiny, overhead) {
                         let lines: Vec<J> = bb[i].iter().map(|c| J::s(letter_name(*c))).collect();
-                        run.violation("blackbox-hang", format!("blackbox-hang|script {} tiny_tree={tiny}", String::from_utf8_lossy(bb[i])), J::obj(vec![("kind", J::s("uci-blackbox-script")), ("script", J::s(String::from_utf8_lossy(bb[i]).to_string())), ("tiny_tree", J::Bool(tiny)), ("lines", J::Arr(lines))]), format!("optimised binary, script [{}] ({}): {m}", script_text(bb[i]), if tiny { "bare kings: the unbounded search exhausts its depth" } else { "start position" }));
+                        run.violation("blackbox-hang", format!("blackbox-hang|script {} tiny_tree={tiny} overhead={overhead}", String::from_utf8_lossy(bb[i])), J::obj(vec![("kind", J::s("uci-blackbox-script")), ("script", J::s(String::from_utf8_lossy(bb[i]).to_string())), ("tiny_tree", J::Bool(tiny)), ("mode", J::i(overhead as i64)), ("lines", J::Arr(lines))]), format!("optimised binary, script [{}] ({}{}): {m}", script_text(bb[i]), if tiny { "bare kings: the unbounded search exhausts its depth" } else { "start position" }, match overhead { 1 => "; Move Overhead 1000, finite searches limited by movetime 30 / clocks 300", 2 => "; go phrased with a negative clock / double blanks / a movetime that cannot bind", _ => "" }));
                     }
                 }
             });
             let k = n.load(std::sync::atomic::Ordering::Relaxed);
-            run.family("E7-SCRIPTS", &format!("well-formed scripts of length <= {bb_len} (quick tier: all up to length 3, of length 4 those with a go, a stop and a ucinewgame/setoption) on the optimised binary with real threads; go infinite on the start position and, for scripts with an unbounded search, also on bare kings (the search exhausts its depth); 10 s per awaited answer"), k, k, true, "one schedule per script — a sample of schedules, not an enumeration");
+            run.family("E7-SCRIPTS", &format!("well-formed scripts of length <= {bb_len} (quick tier: all up to length 3, of length 4 those with a go, a stop and a ucinewgame/setoption) on the optimised binary with real threads; go infinite on the start position and, for scripts with an unbounded search, also on bare kings (the search exhausts its depth); scripts with a finite search also with Move Overhead 1000 and movetime / clock limits, and with odd but valid phrasings of go (negative clock, double blanks); 20 s per awaited answer"), k, k, true, "one schedule per script — a sample of schedules, not an enumeration");
             *run.traces_validated.lock().unwrap() += k;
         }
     }
@@ -675,15 +696,18 @@ fn main() {
             let run: &'static Run = Box::leak(Box::new(Run::new("C05", tier, seed)));
             std::process::exit(c05(run));
         }
-        Some("newgame") => {
-            // C12 under schedules: every well-formed script in which a ucinewgame follows a search
+        Some(mode @ ("newgame" | "setoption")) => {
+            // C12 / C13 under schedules: every well-formed script in which a ucinewgame (a setoption Hash) follows a search
             let tier = args.get(2).map(|s| s.as_str()).unwrap_or("quick");
             let (maxlen, bound) = if tier == "quick" { (4, 2) } else { (5, 2) };
-            let scripts: Vec<Vec<u8>> = all_scripts(maxlen).into_iter().filter(|s| s.iter().position(|c| b"FDG".contains(c)).map_or(false, |i| s[i..].contains(&b'N'))).collect();
+            let letter = if mode == "newgame" { b'N' } else { b'H' };
+            let fresh_mode = mode == "newgame";
+            let scripts: Vec<Vec<u8>> = all_scripts(maxlen).into_iter().filter(|s| s.iter().position(|c| b"FDG".contains(c)).map_or(false, |i| s[i..].contains(&letter))).collect();
             let totals = Mutex::new((0u64, 0u64));
             let fails: Mutex<Vec<J>> = Mutex::new(vec![]);
             util::par_for(scripts.len(), |i| {
-                verif_hooks::CHECK_FRESH.with(|c| c.set(true));
+                verif_hooks::CHECK_FRESH.with(|c| c.set(fresh_mode));
+                verif_hooks::CHECK_RESIZED.with(|c| c.set(!fresh_mode));
                 let abs = Arc::new(Mutex::new(BTreeSet::new()));
                 let e = explore(&scripts[i], bound, &abs);
                 let mut t = totals.lock().unwrap();
@@ -695,7 +719,7 @@ fn main() {
                     let (_, f2, _) = replay_schedule(&scripts[i], &choices);
                     let mut c = case_json(&scripts[i], bound, &choices);
                     if let J::Obj(o) = &mut c {
-                        o.push(("check_fresh".to_string(), J::Bool(true)));
+                        o.push((if fresh_mode { "check_fresh" } else { "check_resized" }.to_string(), J::Bool(true)));
                         o.push(("message".to_string(), J::s(msg.lines().next().unwrap_or("").chars().take(240).collect::<String>())));
                         o.push(("replays_deterministically".to_string(), J::Bool(f1.is_some() && f2.is_some())));
                     }
@@ -730,8 +754,9 @@ fn main() {
             let script = case.get("script").and_then(|x| x.as_str()).unwrap_or("").as_bytes().to_vec();
             if case.get("kind").and_then(|x| x.as_str()) == Some("uci-blackbox-script") {
                 let tiny = matches!(case.get("tiny_tree"), Some(J::Bool(true)));
+                let overhead = case.get("mode").and_then(|x| x.as_i64()).unwrap_or(0) as u8;
                 let bin = blackbox::binary().expect("VERIF_ENGINE_BIN");
-                match blackbox_script(&bin, &script, tiny) {
+                match blackbox_script(&bin, &script, tiny, overhead) {
                     Ok(()) => {
                         println!("replay: no violation observed");
                         std::process::exit(0);
@@ -744,6 +769,9 @@ fn main() {
             }
             if matches!(case.get("check_fresh"), Some(J::Bool(true))) {
                 verif_hooks::CHECK_FRESH.with(|c| c.set(true));
+            }
+            if matches!(case.get("check_resized"), Some(J::Bool(true))) {
+                verif_hooks::CHECK_RESIZED.with(|c| c.set(true));
             }
             let choices: Vec<usize> = case.get("schedule").and_then(|x| x.as_arr()).map(|a| a.iter().filter_map(|x| x.as_i64().map(|v| v as usize)).collect()).unwrap_or_default();
             println!("replaying script {} [{}] with a schedule of {} choices", String::from_utf8_lossy(&script), script_text(&script), choices.len());
